@@ -7,6 +7,10 @@ HOOK_COMMITS = subprocess.run(["git", "-C", "/repo", "log", "--format=%h %s", "-
 
 # id -> (technique, level text, level note, design ref)
 CLAIMED = {
+ "C01": ("property-based testing with fault-scripted transport: generated multi-thread / multi-channel op programs against a generated write script (short writes, would-block with and without re-arm) on the mock transport; oracle = independent envelope parser + per-channel expected frame concatenation",
+         "Exploration: the complete outbound log must be the protocol header plus whole frames, and each channel's frames must be exactly the concatenation of what its ops emit in issue order; a handshake or call that never completes under a write script is reported after confirmation by replay.",
+         "The I/O-thread side of the schedule (what every write call accepts) is owned by the harness; client-thread interleavings are sampled by OS scheduling. Write scripts are cycled up to 20 times (up to 4000 steps).",
+         "DESIGN.md 4/C01"),
  "C16": ("model-based property testing of the handshake: generated client options x a scripted server (happy path with spliced-in deviations, faults and stream cuts); oracle = reference model of the handshake state machine giving the exact client frames and the result",
          "Exploration: for every generated server behaviour the client must write exactly the model's frames with the right contents and return Ok only after OpenOk (then usable, exposing Start's server properties), otherwise the specific error; a timeout error may not come early.",
          "Where the property text leaves two readings open (silence, socket error or malformed data while waiting for the reply to StartOk) both InvalidCredentials and the specific error are accepted. Timeouts use the real clock (40-240 ms); lateness beyond 1.5 s is inconclusive, never a violation. Frames glued after OpenOk are not generated.",
